@@ -13,8 +13,22 @@ RULE = ("ordered pairs of automata: a random epsilon-NFA/NFA/DFA (0-4 states, 1-
         "(verified Nerode oracle) and isomorphism when the languages are equal; the Hopcroft partition is "
         "compared with the Nerode partition. Non-trivial: first automaton has >=2 states, >=2 transitions, a "
         "start and a final state.")
-THEOREMS = ["Pfl.ENFA.langDiff_none_iff", "Pfl.ENFA.langDiff_some", "Pfl.ENFA.toDet_lang",
-            "Pfl.ENFA.toDet_shape", "Pfl.ENFA.mem_leadingToFinal_iff", "Pfl.ENFA.isEmpty_iff"]
+THEOREMS = ["Pfl.ENFA.sameRight_iff",
+            "Pfl.ENFA.nerodeGroups_spec",
+            "Pfl.ENFA.minimizeOf_lang",
+            "Pfl.ENFA.minimizeOf_shape",
+            "Pfl.ENFA.minimizeOf_reduced",
+            "Pfl.ENFA.isReduced_iff",
+            "Pfl.ENFA.isoWalk_true",
+            "Pfl.ENFA.isoWalk_false",
+            "Pfl.ENFA.minimizeOf_trim",
+            "Pfl.ENFA.isEquivalent_exact",
+            "Pfl.ENFA.checkIso_iff",
+            "Pfl.ENFA.isIso_lang",
+            "Pfl.ENFA.langDiff_none_iff",
+            "Pfl.ENFA.langDiff_some",
+            "Pfl.ENFA.toDet_lang",
+            "Pfl.ENFA.toDet_shape"]
 
 
 def variant(rng, spec):
